@@ -429,8 +429,9 @@ def materialise(inst, F=None):
     if 'dualstart' in inst:
         out['dualstart'] = {a: V(v) for a, v in inst['dualstart'].items()}       # 'y' may be left out
     if k in ('socp', 'sdp'):
-        # the wrappers take their start points in block form; build those objects here, once, so that they are
-        # caller-owned arguments like everything else (a wrapper that writes into them must be observable)
+        # the wrappers take their data and start points in block form; build those objects here, once, so that they
+        # are caller-owned arguments like everything else (a wrapper that writes into them must be observable)
+        out['wrap'] = split_wrapper_args(inst, out)
         cone = 'q' if k == 'socp' else 's'
         if 'primalstart' in out:
             out['primalstart'] = wrapper_start(inst, out['primalstart'], 's', cone)
@@ -500,7 +501,7 @@ def call_solver(inst, m, kktsolver=None, options=None, use_options_kw=True, extr
             return solvers.qp(m['P'], m['q'], None, None, A, b, initvals=m.get('initvals'), **kw)
         return solvers.qp(m['P'], m['q'], m['G'], m['h'], A, b, initvals=m.get('initvals'), **kw)
     if k in ('socp', 'sdp'):
-        w = split_wrapper_args(inst, m)
+        w = m['wrap'] if 'wrap' in m else split_wrapper_args(inst, m)
         ps, ds = m.get('primalstart'), m.get('dualstart')
         if k == 'socp':
             return solvers.socp(m['c'], w['Gl'], w['hl'], w['Gq'], w['hq'], A, b,
